@@ -203,6 +203,11 @@ class StatMonitor(Monitor):
         if pr is None or pr.transport is None:
             self.skipped += 1
             return
+        if reactor._thread_q:
+            # a write handed to the reactor thread has been counted and not yet made (the instant is not finished, '~' events):
+            # counters and wire legitimately differ until it runs
+            self.skipped += 1
+            return
         stat = w.rest_stat()
         if stat is None:
             self.skipped += 1
